@@ -13,7 +13,7 @@ char *itoa( int num, char *buf, unsigned short int base )
 {
 	char *p = buf;
 	char *p1, *p2;
-	int ud = 0;
+	unsigned int ud = 0;
 
 	*buf = '\0';	/* initialize buffer. In the case of an error, this will already be in the buffer, indicating that the result is invalid (NULL). */
 	p1 = buf;	/* start of buffer */
@@ -27,7 +27,7 @@ char *itoa( int num, char *buf, unsigned short int base )
 	{
 		*(p++) = '-';
 		p1++;
-		ud = -num;
+		ud = 0u - (unsigned int) num;
 	}
 	else
 		{ ud = num; }
@@ -101,7 +101,7 @@ char *ltoa( long int num, char *buf, unsigned short int base )
 {
 	char *p = buf;
 	char *p1, *p2;
-	long int ud = 0;
+	unsigned long int ud = 0;
 
 	*buf = '\0';	/* initialize buffer. In the case of an error, this will already be in the buffer, indicating that the result is invalid (NULL). */
 	p1 = buf;	/* start of buffer */
@@ -115,7 +115,7 @@ char *ltoa( long int num, char *buf, unsigned short int base )
 	{
 		*(p++) = '-';
 		p1++;
-		ud = -num;
+		ud = 0ul - (unsigned long int) num;
 	}
 	else
 		{ ud = num; }
